@@ -162,10 +162,10 @@ example : Plain "hello wörld 中文 😀".toList := by decide
 
 /-- A relayed reply is the frame chosen by `_makeReply` (bot hostmask, command, real target, nick prefix:
 `frameLen`) plus its text; the text is the payload stripped of `\x01`, or the 44-byte error text. -/
-theorem makeReply_wire (e : Env) (s : Str) :
+theorem makeReply_wire (e : Env) (hn : Normal e) (s : Str) :
     blen (wire e (makeReply e s)) = frameLen e + blen (replyBody e s) ∧
-    blen (replyBody e s) ≤ max (blen s) (blen Gen.emptyReply) :=
-  ⟨wire_makeReply e s, blen_replyBody_le e s⟩
+    blen (replyBody e s) ≤ max (blen s) (blen e.texts.emptyReply) :=
+  ⟨wire_makeReply e s, blen_replyBody_le e hn s⟩
 
 /-- structure of `ircutils.wrap` when the size handed to `byteTextWrap` is at least 4 -/
 theorem ircWrap_struct (chunks : List Str) (s : Str) (length : Nat) (h4 : (parse s).maxSize + 4 ≤ length) :
@@ -208,20 +208,19 @@ What was repaired so that it holds at all: the room is measured on the message `
 builds (`frameLen`), the suffix reserve covers `' \x02(N more messages)\x02'` for every possible `N`,
 `FormatContext.size` counts colour 0 and lone backgrounds.
 -/
-theorem fits_512_partial (e : Env) (cfg : Cfg) (chunks : List Str) (s : Str) (allowed : Nat) (s1 : Str)
-    (hauto : cfg.moresLength = 0)
+theorem fits_length_partial (e : Env) (hn : Normal e) (hT : TextsFine e.texts) (cfg : Cfg) (chunks : List Str)
+    (s : Str) (allowed : Nat) (s1 : Str)
     (hprep : prepare e cfg s = some (allowed, s1, false))
-    (hE : blen Gen.emptyReply ≤ allowed)
+    (hE : blen e.texts.emptyReply ≤ allowed)
     (hcontract : chunks.flatten = munge s1) (hne : ∀ c ∈ chunks, c ≠ [])
-    (h4 : suffixReserve (blen s1) + (parse s1).maxSize + 4 ≤ allowed)
-    (hco : coherent chunks s1 (allowed - suffixReserve (blen s1)) = true) :
+    (h4 : suffixReserve e.texts (blen s1) + (parse s1).maxSize + 4 ≤ allowed)
+    (hco : coherent chunks s1 (allowed - suffixReserve e.texts (blen s1)) = true) :
     ∃ now stored, reply e cfg chunks s = .sent now stored ∧
-      ∀ o ∈ now ++ stored.getD [], blen (wire e o) ≤ 512 := by
+      ∀ o ∈ now ++ stored.getD [], blen (wire e o) ≤ frameLen e + allowed := by
   obtain ⟨hc, hk, ht⟩ := consts_ok
-  obtain ⟨hframe, _, _⟩ := prepare_auto ht hc e cfg s allowed s1 false hauto hprep
-  have hlen4 : (parse s1).maxSize + 4 ≤ allowed - suffixReserve (blen s1) := by omega
+  have hlen4 : (parse s1).maxSize + 4 ≤ allowed - suffixReserve e.texts (blen s1) := by omega
   obtain ⟨raw, hraw, hwrap, _, hrawok⟩ := ircWrap_struct chunks s1 _ hlen4
-  have hfit : ∀ l ∈ processLines none raw, blen l ≤ allowed - suffixReserve (blen s1) := by
+  have hfit : ∀ l ∈ processLines none raw, blen l ≤ allowed - suffixReserve e.texts (blen s1) := by
     intro l hl
     unfold coherent at hco
     rw [hraw] at hco
@@ -243,46 +242,62 @@ theorem fits_512_partial (e : Env) (cfg : Cfg) (chunks : List Str) (s : Str) (al
   obtain ⟨j, l, hj, hl, rfl⟩ := mem_deliveryOrder e _ o hmem
   have htab : Gen.tabFactor = 8 := hc.2.2.2.2.2.2.2.1
   have hj' : j ≤ Gen.tabFactor * blen s1 := by rw [htab]; omega
-  have h1 := blen_withSuffix_le hk ht j (blen s1) l hj'
+  have h1 := blen_withSuffix_le hk e.texts hT j (blen s1) l hj'
   have h2 := hfit l hl
-  obtain ⟨h3, h5⟩ := makeReply_wire e (withSuffix j l)
+  obtain ⟨h3, h5⟩ := makeReply_wire e hn (withSuffix e.texts j l)
   omega
+
+/-- the same with `reply.mores.length = 0`: the room is what is left of 512 bytes -/
+theorem fits_512_partial (e : Env) (hn : Normal e) (hT : TextsFine e.texts) (cfg : Cfg) (chunks : List Str)
+    (s : Str) (allowed : Nat) (s1 : Str)
+    (hauto : cfg.moresLength = 0)
+    (hprep : prepare e cfg s = some (allowed, s1, false))
+    (hE : blen e.texts.emptyReply ≤ allowed)
+    (hcontract : chunks.flatten = munge s1) (hne : ∀ c ∈ chunks, c ≠ [])
+    (h4 : suffixReserve e.texts (blen s1) + (parse s1).maxSize + 4 ≤ allowed)
+    (hco : coherent chunks s1 (allowed - suffixReserve e.texts (blen s1)) = true) :
+    ∃ now stored, reply e cfg chunks s = .sent now stored ∧
+      ∀ o ∈ now ++ stored.getD [], blen (wire e o) ≤ 512 := by
+  obtain ⟨hc, hk, ht⟩ := consts_ok
+  obtain ⟨hframe, _, _⟩ := prepare_auto ht hc e hn cfg s allowed s1 false hauto hprep
+  obtain ⟨now, stored, h1, h2⟩ := fits_length_partial e hn hT cfg chunks s allowed s1 hprep hE hcontract hne h4 hco
+  exact ⟨now, stored, h1, fun o ho => by have := h2 o ho; omega⟩
 
 /-- For a reply without formatting codes, every message of a chunked reply fits in 512 bytes — for every
 target, nick prefix, notice/private/to= combination, bot hostmask, nick and setting of
 reply.mores.{maximum,instant}. -/
-theorem fits_512_plain (e : Env) (cfg : Cfg) (chunks : List Str) (s : Str) (allowed : Nat) (s1 : Str)
+theorem fits_512_plain (e : Env) (hn : Normal e) (hT : TextsFine e.texts) (cfg : Cfg) (chunks : List Str) (s : Str) (allowed : Nat) (s1 : Str)
     (hplain : Plain s)
     (hauto : cfg.moresLength = 0)
     (hprep : prepare e cfg s = some (allowed, s1, false))
-    (hE : blen Gen.emptyReply ≤ allowed)
+    (hE : blen e.texts.emptyReply ≤ allowed)
     (hcontract : chunks.flatten = munge s1) (hne : ∀ c ∈ chunks, c ≠ [])
-    (h4 : suffixReserve (blen s1) + 4 ≤ allowed) :
+    (h4 : suffixReserve e.texts (blen s1) + 4 ≤ allowed) :
     ∃ now stored, reply e cfg chunks s = .sent now stored ∧
       ∀ o ∈ now ++ stored.getD [], blen (wire e o) ≤ 512 := by
   obtain ⟨hc, hk, ht⟩ := consts_ok
-  obtain ⟨_, hs1, _⟩ := prepare_auto ht hc e cfg s allowed s1 false hauto hprep
+  obtain ⟨hs1, _⟩ := prepare_s1 e cfg s allowed s1 false hprep
   have hp1 : Plain s1 := by
     rw [hs1]; unfold truncate
     split
     · intro c hc'; exact hplain c (List.mem_of_mem_take hc')
     · exact hplain
   have hms : (parse s1).maxSize = 0 := by rw [parse_plain s1 hp1]
-  exact fits_512_partial e cfg chunks s allowed s1 hauto hprep hE hcontract hne (by omega)
+  exact fits_512_partial e hn hT cfg chunks s allowed s1 hauto hprep hE hcontract hne (by omega)
     (coherent_plain chunks s1 hp1 hcontract _ (by omega))
 
 /-- A reply that goes out as one message (reply.mores on) fits in 512 bytes. -/
-theorem single_fits_512 (e : Env) (cfg : Cfg) (chunks : List Str) (s : Str) (allowed : Nat) (s1 : Str)
+theorem single_fits_512 (e : Env) (hn : Normal e) (cfg : Cfg) (chunks : List Str) (s : Str) (allowed : Nat) (s1 : Str)
     (hauto : cfg.moresLength = 0) (hmores : cfg.mores = true)
     (hprep : prepare e cfg s = some (allowed, s1, true))
-    (hE : blen Gen.emptyReply ≤ allowed) :
+    (hE : blen e.texts.emptyReply ≤ allowed) :
     reply e cfg chunks s = .sent [makeReply e s1] none ∧ blen (wire e (makeReply e s1)) ≤ 512 := by
   obtain ⟨hc, hk, ht⟩ := consts_ok
-  obtain ⟨hframe, _, hb⟩ := prepare_auto ht hc e cfg s allowed s1 true hauto hprep
+  obtain ⟨hframe, _, hb⟩ := prepare_auto ht hc e hn cfg s allowed s1 true hauto hprep
   constructor
   · unfold reply; rw [hprep]; simp
   · simp only [hmores, Bool.not_true, Bool.or_false, true_eq_decide_iff] at hb
-    obtain ⟨h3, h5⟩ := makeReply_wire e s1
+    obtain ⟨h3, h5⟩ := makeReply_wire e hn s1
     omega
 
 /-! ## the more protocol -/
@@ -290,22 +305,22 @@ theorem single_fits_512 (e : Env) (cfg : Cfg) (chunks : List Str) (s : Str) (all
 /-- Python order of the stored stack: the message at index `j` carries the count `j`, which is the
 number of messages below it, i.e. still stored once it has been delivered. -/
 theorem more_counts (e : Env) (revChunks : List Str) :
-    buildMsgs e revChunks [] = revChunks.mapIdx (fun j c => makeReply e (withSuffix j c)) := by
+    buildMsgs e revChunks [] = revChunks.mapIdx (fun j c => makeReply e (withSuffix e.texts j c)) := by
   rw [buildMsgs_eq]; simp
 
 /-- In delivery order: the `k`-th message (0-based) of `n` carries line `k` followed by the count
 `n - 1 - k` — the number of messages that remain. -/
 theorem more_counts_delivery (e : Env) (lines : List Str) (k : Nat) :
     (deliveryOrder e lines)[k]? =
-      (lines[k]?).map (fun l => makeReply e (withSuffix (lines.length - 1 - k) l)) :=
+      (lines[k]?).map (fun l => makeReply e (withSuffix e.texts (lines.length - 1 - k) l)) :=
   deliveryOrder_getElem? e lines k
 
 /-- The first answer of a chunked reply is the first `max instant 1` messages in order; the rest is
 stored, in order, in `_mores` (nothing is stored when everything went out at once). -/
 theorem reply_first_batch (e : Env) (cfg : Cfg) (chunks : List Str) (s : Str) (allowed : Nat) (s1 : Str)
     (hprep : prepare e cfg s = some (allowed, s1, false))
-    (hres : suffixReserve (blen s1) ≤ allowed)
-    (lines : List Str) (hwrap : ircWrap chunks s1 (allowed - suffixReserve (blen s1)) = .ok lines) :
+    (hres : suffixReserve e.texts (blen s1) ≤ allowed)
+    (lines : List Str) (hwrap : ircWrap chunks s1 (allowed - suffixReserve e.texts (blen s1)) = .ok lines) :
     reply e cfg chunks s = .sent ((deliveryOrder e lines).take (max cfg.instant 1))
       (if (deliveryOrder e lines).length < max cfg.instant 1 then none
        else some ((deliveryOrder e lines).drop (max cfg.instant 1)).reverse) :=
@@ -317,8 +332,8 @@ changing between calls): the messages queued are, in order and each exactly once
 once `max instant 1 + Σ ks ≥ n` everything has been delivered and the stack is empty. -/
 theorem more_protocol (e : Env) (cfg : Cfg) (chunks : List Str) (s : Str) (allowed : Nat) (s1 : Str)
     (hprep : prepare e cfg s = some (allowed, s1, false))
-    (hres : suffixReserve (blen s1) ≤ allowed)
-    (lines : List Str) (hwrap : ircWrap chunks s1 (allowed - suffixReserve (blen s1)) = .ok lines)
+    (hres : suffixReserve e.texts (blen s1) ≤ allowed)
+    (lines : List Str) (hwrap : ircWrap chunks s1 (allowed - suffixReserve e.texts (blen s1)) = .ok lines)
     (ks : List Nat) (hks : ∀ k ∈ ks, 1 ≤ k) :
     ∃ now stored, reply e cfg chunks s = .sent now stored ∧
       now ++ (runMores ks (stored.getD [])).1.flatten = (deliveryOrder e lines).take (max cfg.instant 1 + ks.sum) ∧
@@ -412,12 +427,12 @@ theorem visible_text_plain (e : Env) (cfg : Cfg) (chunks : List Str) (s : Str) (
     (hplain : Plain s1)
     (hprep : prepare e cfg s = some (allowed, s1, false))
     (hcontract : chunks.flatten = munge s1)
-    (h4 : suffixReserve (blen s1) + 4 ≤ allowed) :
-    ∃ lines, lines.flatten = munge s1 ∧ (∀ l ∈ lines, blen l ≤ allowed - suffixReserve (blen s1)) ∧
+    (h4 : suffixReserve e.texts (blen s1) + 4 ≤ allowed) :
+    ∃ lines, lines.flatten = munge s1 ∧ (∀ l ∈ lines, blen l ≤ allowed - suffixReserve e.texts (blen s1)) ∧
       reply e cfg chunks s = .sent ((deliveryOrder e lines).take (max cfg.instant 1))
         (if (deliveryOrder e lines).length < max cfg.instant 1 then none
          else some ((deliveryOrder e lines).drop (max cfg.instant 1)).reverse) := by
-  obtain ⟨lines, h1, h2, h3⟩ := ircWrap_plain chunks s1 hplain hcontract (allowed - suffixReserve (blen s1)) (by omega)
+  obtain ⟨lines, h1, h2, h3⟩ := ircWrap_plain chunks s1 hplain hcontract (allowed - suffixReserve e.texts (blen s1)) (by omega)
   exact ⟨lines, h2, h3, reply_chunked e cfg chunks s allowed s1 hprep (by omega) lines h1⟩
 
 /-! ## text without colour codes: full theorems; text with colour codes: the counter-example -/
@@ -461,23 +476,23 @@ theorem ircWrap_nocolour (chunks : List Str) (s : Str) (hn : NoColour s) (hcontr
 example : NoColour ([Char.ofNat 2] ++ "bold ".toList ++ [Char.ofNat 31] ++ "both".toList ++ [Char.ofNat 15] ++ " plain".toList) := by decide
 
 /-- Every message of a chunked reply without colour codes fits in 512 bytes. -/
-theorem fits_512_nocolour (e : Env) (cfg : Cfg) (chunks : List Str) (s : Str) (allowed : Nat) (s1 : Str)
+theorem fits_512_nocolour (e : Env) (hn' : Normal e) (hT : TextsFine e.texts) (cfg : Cfg) (chunks : List Str) (s : Str) (allowed : Nat) (s1 : Str)
     (hn : NoColour s)
     (hauto : cfg.moresLength = 0)
     (hprep : prepare e cfg s = some (allowed, s1, false))
-    (hE : blen Gen.emptyReply ≤ allowed)
+    (hE : blen e.texts.emptyReply ≤ allowed)
     (hcontract : chunks.flatten = munge s1) (hne : ∀ c ∈ chunks, c ≠ [])
-    (h4 : suffixReserve (blen s1) + (parse s1).maxSize + 4 ≤ allowed) :
+    (h4 : suffixReserve e.texts (blen s1) + (parse s1).maxSize + 4 ≤ allowed) :
     ∃ now stored, reply e cfg chunks s = .sent now stored ∧
       ∀ o ∈ now ++ stored.getD [], blen (wire e o) ≤ 512 := by
   obtain ⟨hc, hk, ht⟩ := consts_ok
-  obtain ⟨_, hs1, _⟩ := prepare_auto ht hc e cfg s allowed s1 false hauto hprep
+  obtain ⟨hs1, _⟩ := prepare_s1 e cfg s allowed s1 false hprep
   have hn1 : NoColour s1 := by
     rw [hs1]; unfold truncate
     split
     · intro c hc'; exact hn c (List.mem_of_mem_take hc')
     · exact hn
-  exact fits_512_partial e cfg chunks s allowed s1 hauto hprep hE hcontract hne h4
+  exact fits_512_partial e hn' hT cfg chunks s allowed s1 hauto hprep hE hcontract hne h4
     (coherent_nocolour chunks s1 hn1 hcontract _ (by omega))
 
 /-
@@ -539,16 +554,16 @@ theorem ircWrap_fits_clean (chunks : List Str) (s : Str) (hcontract : chunks.fla
 
 /-- every message of a chunked reply fits in 512 bytes, for any text (colours included) whose wrapped
 lines start cleanly -/
-theorem fits_512_clean (e : Env) (cfg : Cfg) (chunks : List Str) (s : Str) (allowed : Nat) (s1 : Str)
+theorem fits_512_clean (e : Env) (hn : Normal e) (hT : TextsFine e.texts) (cfg : Cfg) (chunks : List Str) (s : Str) (allowed : Nat) (s1 : Str)
     (hauto : cfg.moresLength = 0)
     (hprep : prepare e cfg s = some (allowed, s1, false))
-    (hE : blen Gen.emptyReply ≤ allowed)
+    (hE : blen e.texts.emptyReply ≤ allowed)
     (hcontract : chunks.flatten = munge s1) (hne : ∀ c ∈ chunks, c ≠ [])
-    (h4 : suffixReserve (blen s1) + (parse s1).maxSize + 4 ≤ allowed)
-    (hclean : cleanWrap chunks s1 (allowed - suffixReserve (blen s1)) = true) :
+    (h4 : suffixReserve e.texts (blen s1) + (parse s1).maxSize + 4 ≤ allowed)
+    (hclean : cleanWrap chunks s1 (allowed - suffixReserve e.texts (blen s1)) = true) :
     ∃ now stored, reply e cfg chunks s = .sent now stored ∧
       ∀ o ∈ now ++ stored.getD [], blen (wire e o) ≤ 512 :=
-  fits_512_partial e cfg chunks s allowed s1 hauto hprep hE hcontract hne h4
+  fits_512_partial e hn hT cfg chunks s allowed s1 hauto hprep hE hcontract hne h4
     (coherent_clean chunks s1 hcontract _ (by omega) hclean)
 
 /-- `ircutils.wrap` on any text — colours, over-long words, multi-byte characters — whose wrapped lines
@@ -574,14 +589,14 @@ text of the (truncated, munged) reply. -/
 theorem reply_text_clean (e : Env) (cfg : Cfg) (chunks : List Str) (s : Str) (allowed : Nat) (s1 : Str)
     (hprep : prepare e cfg s = some (allowed, s1, false))
     (hcontract : chunks.flatten = munge s1)
-    (h4 : suffixReserve (blen s1) + (parse s1).maxSize + 4 ≤ allowed)
-    (hclean : cleanWrap chunks s1 (allowed - suffixReserve (blen s1)) = true) :
+    (h4 : suffixReserve e.texts (blen s1) + (parse s1).maxSize + 4 ≤ allowed)
+    (hclean : cleanWrap chunks s1 (allowed - suffixReserve e.texts (blen s1)) = true) :
     ∃ lines, (lines.map stripFormatting).flatten = stripFormatting (munge s1) ∧
-      (∀ l ∈ lines, blen l ≤ allowed - suffixReserve (blen s1)) ∧
+      (∀ l ∈ lines, blen l ≤ allowed - suffixReserve e.texts (blen s1)) ∧
       reply e cfg chunks s = .sent ((deliveryOrder e lines).take (max cfg.instant 1))
         (if (deliveryOrder e lines).length < max cfg.instant 1 then none
          else some ((deliveryOrder e lines).drop (max cfg.instant 1)).reverse) := by
-  obtain ⟨lines, h1, h2, h3⟩ := visible_text_clean chunks s1 hcontract (allowed - suffixReserve (blen s1)) (by omega) hclean
+  obtain ⟨lines, h1, h2, h3⟩ := visible_text_clean chunks s1 hcontract (allowed - suffixReserve e.texts (blen s1)) (by omega) hclean
   exact ⟨lines, h3, h2, reply_chunked e cfg chunks s allowed s1 hprep (by omega) lines h1⟩
 
 def clText : Str := [Char.ofNat 3, '4'] ++ "red ".toList ++ [Char.ofNat 3, '0', ',', '1'] ++ "white on black".toList ++
@@ -609,16 +624,15 @@ What does hold: the text that is split has at most `allowedLength * maximum` cha
 number of messages is bounded by 32 × that.
 -/
 theorem chunk_count_partial (e : Env) (cfg : Cfg) (chunks : List Str) (s : Str) (allowed : Nat) (s1 : Str)
-    (hauto : cfg.moresLength = 0)
     (hprep : prepare e cfg s = some (allowed, s1, false))
     (hcontract : chunks.flatten = munge s1) (hne : ∀ c ∈ chunks, c ≠ [])
-    (h4 : suffixReserve (blen s1) + (parse s1).maxSize + 4 ≤ allowed) :
+    (h4 : suffixReserve e.texts (blen s1) + (parse s1).maxSize + 4 ≤ allowed) :
     ∃ now stored, reply e cfg chunks s = .sent now stored ∧
       s1.length ≤ allowed * cfg.maximumMores ∧
       now.length + (stored.getD []).length ≤ max 1 (32 * (allowed * cfg.maximumMores)) := by
   obtain ⟨hc, hk, ht⟩ := consts_ok
-  obtain ⟨_, hs1, _⟩ := prepare_auto ht hc e cfg s allowed s1 false hauto hprep
-  have hlen4 : (parse s1).maxSize + 4 ≤ allowed - suffixReserve (blen s1) := by omega
+  obtain ⟨hs1, _⟩ := prepare_s1 e cfg s allowed s1 false hprep
+  have hlen4 : (parse s1).maxSize + 4 ≤ allowed - suffixReserve e.texts (blen s1) := by omega
   obtain ⟨raw, hraw, hwrap, _, _⟩ := ircWrap_struct chunks s1 _ hlen4
   have hcount : (processLines none raw).length ≤ max 1 (8 * blen s1) := by
     rw [processLines_length]
@@ -655,6 +669,138 @@ theorem chunk_count_counterexample :
   simp only [cexCfg] at this
   omega
 
+/-! ## locales -/
+
+def textsOfRow (r : Str × Str × Str × Str × Str) : Texts :=
+  { moreSingular := r.2.1, morePlural := r.2.2.1, emptyReply := r.2.2.2.1, errorPrefix := r.2.2.2.2 }
+
+/-- The suffix reserve is sufficient in every shipped translation (and in English): the text chosen by
+`max(_('more message'), _('more messages'), key=len)` is, in bytes, at least as long as both.
+An obligation over the table extracted from locales/*.po. -/
+theorem locale_texts_ok : TextsFine Texts.english ∧ ∀ r ∈ Gen.localeTexts, TextsFine (textsOfRow r) := by
+  decide
+
+/-! ## explicit reply.mores.length -/
+
+theorem fits_length_nocolour (e : Env) (hn' : Normal e) (hT : TextsFine e.texts) (cfg : Cfg) (chunks : List Str)
+    (s : Str) (allowed : Nat) (s1 : Str)
+    (hn : NoColour s)
+    (hprep : prepare e cfg s = some (allowed, s1, false))
+    (hE : blen e.texts.emptyReply ≤ allowed)
+    (hcontract : chunks.flatten = munge s1) (hne : ∀ c ∈ chunks, c ≠ [])
+    (h4 : suffixReserve e.texts (blen s1) + (parse s1).maxSize + 4 ≤ allowed) :
+    ∃ now stored, reply e cfg chunks s = .sent now stored ∧
+      ∀ o ∈ now ++ stored.getD [], blen (wire e o) ≤ frameLen e + allowed := by
+  obtain ⟨hs1, _⟩ := prepare_s1 e cfg s allowed s1 false hprep
+  have hn1 : NoColour s1 := by
+    rw [hs1]; unfold truncate
+    split
+    · intro c hc'; exact hn c (List.mem_of_mem_take hc')
+    · exact hn
+  exact fits_length_partial e hn' hT cfg chunks s allowed s1 hprep hE hcontract hne h4
+    (coherent_nocolour chunks s1 hn1 hcontract _ (by omega))
+
+/-- Whatever `reply.mores.length` is (explicit, or 0 = computed): every message of a chunked reply, as
+relayed, has at most `frameLen e + allowedLength` bytes — the frame `:hostmask CMD target :nick: … CRLF`
+plus the allowed length.  With an explicit length this is ≤ 512 exactly when
+`length ≤ 512 - frameLen e`; a larger length makes 512 impossible (`length_overflow_counterexample`). -/
+theorem fits_length_clean (e : Env) (hn : Normal e) (hT : TextsFine e.texts) (cfg : Cfg) (chunks : List Str)
+    (s : Str) (allowed : Nat) (s1 : Str)
+    (hprep : prepare e cfg s = some (allowed, s1, false))
+    (hE : blen e.texts.emptyReply ≤ allowed)
+    (hcontract : chunks.flatten = munge s1) (hne : ∀ c ∈ chunks, c ≠ [])
+    (h4 : suffixReserve e.texts (blen s1) + (parse s1).maxSize + 4 ≤ allowed)
+    (hclean : cleanWrap chunks s1 (allowed - suffixReserve e.texts (blen s1)) = true) :
+    ∃ now stored, reply e cfg chunks s = .sent now stored ∧
+      ∀ o ∈ now ++ stored.getD [], blen (wire e o) ≤ frameLen e + allowed :=
+  fits_length_partial e hn hT cfg chunks s allowed s1 hprep hE hcontract hne h4
+    (coherent_clean chunks s1 hcontract _ (by omega) hclean)
+
+def bigCfg : Cfg := { moresLength := 600, maximumMores := 50, instant := 1, mores := true }
+
+/-- `reply.mores.length = 600` in a channel: the first message of `'x' * 1000` is relayed as a line of
+more than 512 bytes (the operator asked for it). -/
+theorem length_overflow_counterexample :
+    ¬ (∀ (e : Env) (cfg : Cfg) (chunks : List Str) (s : Str) now stored, Normal e →
+        reply e cfg chunks s = .sent now stored → ∀ o ∈ now, blen (wire e o) ≤ 512) := by
+  intro h
+  have hv : ∃ now stored, reply cexEnv bigCfg [List.replicate 1000 'x'] (List.replicate 1000 'x') = .sent now stored ∧
+      ∃ o ∈ now, 512 < blen (wire cexEnv o) := by
+    refine ⟨(match reply cexEnv bigCfg [List.replicate 1000 'x'] (List.replicate 1000 'x') with
+              | .sent n _ => n | _ => []),
+            (match reply cexEnv bigCfg [List.replicate 1000 'x'] (List.replicate 1000 'x') with
+              | .sent _ st => st | _ => none), ?_, ?_⟩
+    · decide +kernel
+    · refine ⟨(match reply cexEnv bigCfg [List.replicate 1000 'x'] (List.replicate 1000 'x') with
+              | .sent n _ => n.headD ⟨[], [], []⟩ | _ => ⟨[], [], []⟩), ?_, ?_⟩ <;> decide +kernel
+  obtain ⟨now, stored, h1, o, ho, hlt⟩ := hv
+  have := h cexEnv bigCfg _ _ now stored (by decide) h1 o ho
+  omega
+
+/-! ## Irc._truncateMsg and the replies that are not length-checked -/
+
+theorem blen_takeBytes_le : ∀ (l : Str) (n : Nat), blen (takeBytes n l) ≤ n := by
+  intro l
+  induction l with
+  | nil => intro n; simp [takeBytes, blen]
+  | cons c cs ih =>
+    intro n
+    unfold takeBytes
+    split
+    · have := ih (n - c.utf8Size); simp only [blen]; omega
+    · simp [blen]
+
+theorem takeBytes_prefix : ∀ (l : Str) (n : Nat), takeBytes n l <+: l := by
+  intro l
+  induction l with
+  | nil => intro n; simp [takeBytes]
+  | cons c cs ih =>
+    intro n
+    unfold takeBytes
+    split
+    · exact List.prefix_cons_inj c |>.mpr (ih _)
+    · exact List.nil_prefix
+
+/-- What is written to the socket never exceeds 512 bytes (`Irc._truncateMsg` cuts the outgoing line at a
+character boundary) and is the line itself when it fits.  This bounds the OUTGOING line: the server
+prepends `:hostmask ` when relaying, so a reply that was not length-checked can still be cut a second
+time by the server — and its text is lost either way (`unchecked_counterexample`). -/
+theorem sentLine_le (o : Out) : blen (sentLine o) ≤ 512 ∧ (blen (outLine o) ≤ 512 → sentLine o = outLine o) := by
+  have hm : Gen.ircMaxLine = 512 := by decide
+  unfold sentLine truncateLine
+  rw [hm]
+  constructor
+  · split
+    · have := blen_takeBytes_le (outLine o) (512 - 2)
+      have h1 : ('\r' : Char).utf8Size = 1 := by decide
+      have h2 : ('\n' : Char).utf8Size = 1 := by decide
+      simp only [blen_append, blen_cons, blen_nil, h1, h2]; omega
+    · omega
+  · intro h; simp [show ¬ (512 < blen (outLine o)) by omega]
+
+/-- an action reply is one message, whatever its length (`action=True` implies `noLengthCheck`) -/
+theorem action_reply_single (e : Env) (ha : e.action = true) (cfg : Cfg) (chunks : List Str) (s : Str) :
+    replyCall e cfg chunks s = .sent [makeReply e s] none := by
+  simp [replyCall, ha]
+
+/-- an ordinary reply goes through the length-checked branch -/
+theorem replyCall_normal (e : Env) (ha : e.action = false) (cfg : Cfg) (chunks : List Str) (s : Str) :
+    replyCall e cfg chunks s = reply e cfg chunks s := by
+  simp [replyCall, ha]
+
+theorem call_env_normal (c : Call) (ha : c.action = false) : Normal c.env := ⟨ha, rfl⟩
+
+/-
+Full statement for the replies that bypass the length check (`irc.error(long text)`, `action=True`,
+`reply.mores` off): relayed line ≤ 512 bytes and no text lost.  FALSE on the pinned tree
+(`unchecked_counterexample`, known finding C12-unchecked-replies-truncated): they are sent as ONE message,
+which `Irc._truncateMsg` cuts at 512 bytes of the outgoing line.
+-/
+theorem unchecked_counterexample :
+    ∃ o, errorReply cexEnv (List.replicate 600 'x') = some o ∧ 512 < blen (wire cexEnv o) ∧
+      sentLine o ≠ outLine o ∧ blen (sentLine o) = 512 := by
+  refine ⟨makeReply (errorEnv cexEnv) (List.replicate 600 'x'), ?_, ?_, ?_, ?_⟩ <;> decide +kernel
+
 /-! ## non-vacuity: a concrete chunked reply meets the hypotheses of the theorems above -/
 
 def exEnv : Env :=
@@ -668,13 +814,13 @@ def exChunks : List Str := [List.replicate 100 'x', [' '], List.replicate 100 'y
 
 example : prepare exEnv exCfg exText = some (92, exText, false) ∧ blen Gen.emptyReply ≤ 92 ∧
     exChunks.flatten = munge exText ∧ (∀ c ∈ exChunks, c ≠ []) ∧
-    suffixReserve (blen exText) + (parse exText).maxSize + 4 ≤ 92 ∧
-    coherent exChunks exText (92 - suffixReserve (blen exText)) = true ∧ Plain exText ∧
-    suffixReserve (blen exText) = 23 ∧ NoColour exText ∧
-    cleanWrap exChunks exText (92 - suffixReserve (blen exText)) = true := by decide +kernel
+    suffixReserve Texts.english (blen exText) + (parse exText).maxSize + 4 ≤ 92 ∧
+    coherent exChunks exText (92 - suffixReserve Texts.english (blen exText)) = true ∧ Plain exText ∧
+    suffixReserve Texts.english (blen exText) = 23 ∧ NoColour exText ∧ Normal exEnv ∧ TextsFine exEnv.texts ∧
+    cleanWrap exChunks exText (92 - suffixReserve Texts.english (blen exText)) = true := by decide +kernel
 
-example : ∃ lines, ircWrap exChunks exText (92 - suffixReserve (blen exText)) = .ok lines := by
-  obtain ⟨l, h, _⟩ := ircWrap_plain exChunks exText (by decide +kernel) (by decide +kernel) (92 - suffixReserve (blen exText)) (by decide +kernel)
+example : ∃ lines, ircWrap exChunks exText (92 - suffixReserve Texts.english (blen exText)) = .ok lines := by
+  obtain ⟨l, h, _⟩ := ircWrap_plain exChunks exText (by decide +kernel) (by decide +kernel) (92 - suffixReserve Texts.english (blen exText)) (by decide +kernel)
   exact ⟨l, h⟩
 
 example : prepare exEnv exCfg "short".toList = some (92, "short".toList, true) := by decide +kernel
